@@ -114,6 +114,14 @@ def run(ctx, chk):
                         mism.append("%s=%s(want bits %d+%d)" % (f, got[1:] if got[0] == "bits" else got, BB + off, w))
             else:
                 mism.append("no-radio-status")
+            # the state occupies 19 bits: the reads of the state parser must end 19 bits after its
+            # first field (a sub-message that leaves its two spare bits unread decodes the same
+            # fields and hands a wrong position to whoever continues after the state)
+            reads = [(e[2], e[3]) for e in getattr(o, "reads", []) if e[0] == "take" and isinstance(e[2], int) and isinstance(e[3], int) and e[3] > 0]
+            if reads and isinstance(BB, int) and scheme_got in ("sotdma", "itdma"):
+                end = max(p + w_ for p, w_ in reads)
+                chk.ob(end == BB + 19, "C16/%s/consumed=%d(want %d)" % (struct, end - BB, 19),
+                       "%s [%s] communication state: the state parser consumes %d bits from its first field, the state is 19 bits long" % (struct, cfg, end - BB))
             n += 1
             if mism:
                 key = "C16/%s/%s" % (struct, ";".join(sorted(set(mism))))
